@@ -267,3 +267,87 @@ Proof.
 Qed.
 
 End Embedded.
+
+(* ---------------------------------------------------------------------------------------------- *)
+(* An expression that never closes (hunt finding C12/1).  Started after the opening parenthesis, the scanner reaches
+   the end of the input with a parenthesis still open: parentheses inside text literals do not count, and a
+   literal that is still open at the end swallows the rest. *)
+Definition unterminated (e : text) : Prop := snd (fst (p_expr MNorm 1 e)) <> O.
+
+(* source-level sufficient condition: no closing parenthesis at all *)
+Lemma p_expr_no_rparen : forall e m p, ~ In r_rparen e -> (p <= snd (fst (p_expr m p e)))%nat.
+Proof.
+  induction e as [|c e IH]; intros m p H; [cbn; lia|].
+  assert (Hc : c <> r_rparen) by (intros ->; apply H; left; reflexivity).
+  assert (He : ~ In r_rparen e) by (intros H1; apply H; right; exact H1).
+  assert (Hpre : forall m' p', (p <= p')%nat -> (p <= snd (fst (pre c (p_expr m' p' e))))%nat).
+  { intros m' p' Hp. specialize (IH m' p' He). destruct (p_expr m' p' e) as [[o q] k]. cbn [pre fst snd] in *. lia. }
+  cbn [p_expr]. destruct m as [|esc].
+  - destruct (c =? r_quote); [apply Hpre; lia|].
+    destruct (c =? r_lparen); [apply Hpre; lia|].
+    destruct (N.eqb_spec c r_rparen); [contradiction|]. apply Hpre; lia.
+  - destruct ((c =? r_quote) && negb esc); apply Hpre; lia.
+Qed.
+
+Lemma no_rparen_unterminated e : ~ In r_rparen e -> unterminated e.
+Proof. intros H. unfold unterminated. pose proof (p_expr_no_rparen e MNorm 1 H). lia. Qed.
+
+Lemma unterminated_all e : unterminated e -> exists p, p_expr MNorm 1 e = (e, S p, []).
+Proof.
+  unfold unterminated. intros H. pose proof (p_expr_lossless (fun _ => false) (fun c => c) eq_refl e MNorm 1 ltac:(lia)) as HL.
+  destruct (p_expr MNorm 1 e) as [[o q] k]. cbn [fst snd] in H. destruct HL as [_ H2].
+  destruct (H2 H) as [-> ->]. destruct q as [|q]; [contradiction|]. exists q. reflexivity.
+Qed.
+
+(* strings.ReplaceAll(body, "@@", "@") is the replacement the property sentence describes *)
+Lemma replace_atat_unescape : forall t, replace_atat t = unescape_at t.
+Proof. intros t. reflexivity. Qed.
+
+Section Unterminated.
+Variable isln : rune -> bool.
+Variable lower : rune -> rune.
+Hypothesis isln_eof : isln eof = false.
+Hypothesis isln_dot : isln r_dot = false.
+Hypothesis isln_at : isln r_at = false.
+
+(* Evaluator.Template on  b1 @( e  where e never closes: nothing is evaluated, no error is collected, and the
+   whole input is body text: "@@" is an escaped '@' before AND after the "@(" (in e no '@' starts anything any
+   more, so no condition on the names that follow an '@' in e is needed) *)
+Theorem template_unterminated (eval_expr : text -> option text) tops b1 e :
+  nulfree b1 -> nulfree e ->
+  no_start isln lower (Some tops) b1 = true -> at_open b1 = false -> unterminated e ->
+  template_with isln lower eval_expr tops (b1 ++ r_at :: r_lparen :: e) =
+  Ok (unescape_at b1 ++ r_at :: r_lparen :: unescape_at e, O).
+Proof.
+  intros Hn1 Hne Hns Hao Hun. destruct (unterminated_all e Hun) as (q & Hq).
+  set (X := r_at :: r_lparen :: e).
+  assert (HX : starts_expr X) by (eexists; reflexivity).
+  assert (HnX : nulfree X).
+  { unfold X. apply nulfree_cons; split; [discriminate|]. apply nulfree_cons; split; [discriminate|exact Hne]. }
+  unfold template_with. destruct (b1 ++ X) as [|c0 s0] eqn:EW.
+  { destruct b1; discriminate. }
+  rewrite <- EW. clear c0 s0 EW.
+  destruct (scan_all_ok isln lower (Some tops) true (b1 ++ X)) as (toks & HT). rewrite HT; cbn [bind]. f_equal.
+  unfold scan_all in HT.
+  assert (HR : R (new_input (b1 ++ X)) (b1 ++ X)) by (apply R_new, nulfree_app; split; assumption).
+  destruct (embedded_loop isln lower isln_eof isln_dot isln_at eval_expr (Some tops) X HX _ _ _ _ HR Hns Hao HT)
+    as (f' & i2 & toks2 & HR2 & HL2 & HTT).
+  rewrite HTT. clear HT HTT HR.
+  (* the token for the unterminated expression *)
+  destruct f' as [|f']; [discriminate|]. cbn [scan_all_loop] in HL2.
+  destruct (scan isln lower (Some tops) true i2) as [[[ty tok] i3]| |] eqn:ES; cbn [bind] in HL2; try discriminate.
+  pose proof (scan_ref isln lower isln_eof _ _ _ _ _ _ _ HR2 ES) as HS.
+  unfold X in HS. cbn [p_scan] in HS. change (r_at =? r_at) with true in HS. change (r_lparen =? r_lparen) with true in HS.
+  cbv iota in HS. unfold p_scan_expr in HS. rewrite Hq in HS. cbn [Nat.eqb] in HS. destruct HS as (-> & -> & HR3).
+  cbn [toktype_eqb] in HL2.
+  destruct (scan_all_loop isln lower (Some tops) true f' i3) as [toks3| |] eqn:EL3; cbn [bind] in HL2; try discriminate.
+  inversion HL2; subst toks2. cbn [template_tokens].
+  (* then the end of the input *)
+  destruct f' as [|f'']; [discriminate|]. cbn [scan_all_loop] in EL3.
+  destruct (scan isln lower (Some tops) true i3) as [[[ty tok] i4]| |] eqn:ES3; cbn [bind] in EL3; try discriminate.
+  pose proof (scan_ref isln lower isln_eof _ _ _ _ _ _ _ HR3 ES3) as HS3. cbn [p_scan] in HS3.
+  destruct HS3 as (-> & -> & _). cbn [toktype_eqb] in EL3. inversion EL3. subst toks3.
+  cbn [template_tokens fst snd]. rewrite app_nil_r. reflexivity.
+Qed.
+
+End Unterminated.
